@@ -12,6 +12,7 @@ where T is an op or a tuple of ops.
 import ast
 
 from .program import AnalysisError, dotted, src, walk_no_nested
+from . import staticeval
 
 PRIMS_W = {"write_int", "write_short_int", "write_int_neg", "write_string", "write_string_or_none",
            "write_bool_array", "write_list", "write_list_of_pairs", "write_dict"}
@@ -27,8 +28,8 @@ class WireCtx:
         self.consts = {}
         for name, v in ser.assigns.items():
             try:
-                self.consts[name] = eval(compile(ast.Expression(v), "<const>", "eval"), {}, dict(self.consts))
-            except Exception:
+                self.consts[name] = staticeval.const_expr(v, dict(self.consts))
+            except staticeval.NoEval:
                 pass
 
     def width(self, node):
